@@ -27,11 +27,11 @@ def _(self: Obj['rbql_engine.RBQLOutputWriter'], fields: List[Cell]) -> Bool:
     requires(not self.refused, 'no_write_after_refusal')
     requires(not self.sorted_iface, 'plain_writer')
     requires(not is_src(fields), 'record_is_not_a_source_row')
-    requires(not is_offered(fields), 'record_not_offered_twice')
+    requires(not is_offered(fields), 'engine_record_not_offered_twice')
     ensures(self.offered == old(self.offered) + [old(contents(fields))], 'offered')
     ensures(self.refused == (not result), 'refused')
     ensures(self.finished == old(self.finished) and self.sorted_iface == old(self.sorted_iface), 'typestate')
-    ensures(implies(result, is_offered(fields)), 'ownership')
+    ensures(is_owned_below(fields), 'ownership')
     modifies(region(self), contents(fields))
 
 
@@ -75,13 +75,14 @@ def _(self: Obj['rbql_engine.TopWriter'], record: List[Cell]) -> Bool:
     requires(not self.finished, 'not_finished')
     requires(not self.refused, 'no_write_after_refusal')
     requires(not is_src(record), 'record_is_not_a_source_row')
-    requires(not is_offered(record), 'record_not_offered_twice')
+    requires(not is_offered(record), 'engine_record_not_offered_twice')
     ghost_update(self.offered, old(self.offered) + [old(contents(record))])
     ghost_update(self.refused, not result)
+    ghost_update(is_owned_below(record), True)
     ensures(top_inv(self), 'inv')
     ensures(self.subwriter.offered == take(self.top_count, self.offered), 'forwards_exactly_first_n')
     ensures(result == (len(old(self.offered)) < self.top_count and not self.subwriter.refused), 'result')
-    ensures(implies(result, is_offered(record)), 'ownership')
+    ensures(is_owned_below(record), 'ownership')
     ensures(self.top_count == old(self.top_count) and same(self.subwriter, old(self.subwriter)), 'config_unchanged')
     modifies(self, region(self.subwriter), contents(record))
 
@@ -127,10 +128,12 @@ def _(self: Obj['rbql_engine.UniqWriter'], record: List[Cell]) -> Bool:
     requires(not self.finished, 'not_finished')
     requires(not self.refused, 'no_write_after_refusal')
     requires(not is_src(record), 'record_is_not_a_source_row')
-    requires(not is_offered(record), 'record_not_offered_twice')
+    requires(not is_offered(record), 'engine_record_not_offered_twice')
     ghost_update(self.offered, old(self.offered) + [old(contents(record))])
     ghost_update(self.refused, not result)
+    ghost_update(is_owned_below(record), True)
     ensures(uniq_inv(self), 'inv')
+    ensures(is_owned_below(record), 'ownership')
     ensures(self.subwriter.offered == dedup_first(self.offered), 'forwards_first_occurrences')
     ensures(result == (not self.subwriter.refused), 'result')
     ensures(same(self.subwriter, old(self.subwriter)), 'config_unchanged')
@@ -178,7 +181,9 @@ def _(self: Obj['rbql_engine.UniqCountWriter'], record: List[Cell]) -> Bool:
     requires(uc_inv(self), 'inv')
     requires(not self.finished, 'not_finished')
     ghost_update(self.offered, old(self.offered) + [old(contents(record))])
+    ghost_update(is_owned_below(record), True)
     ensures(uc_inv(self), 'inv')
+    ensures(is_owned_below(record), 'ownership')
     ensures(result, 'never_refuses')
     ensures(self.subwriter.offered == old(self.subwriter.offered) and self.subwriter.refused == old(self.subwriter.refused)
             and self.subwriter.finished == old(self.subwriter.finished), 'buffers_only')
@@ -205,4 +210,94 @@ def _(self: Obj['rbql_engine.UniqCountWriter']):
             and (len(self.subwriter.offered) == len(dedup_first(self.offered)) or self.subwriter.refused), 'complete_unless_refused')
     ensures(self.offered == old(self.offered), 'offered_unchanged')
     loop_types(0, record=RecV, cnt=Int, mutable_record=List[Cell])
+    modifies(self, region(self.subwriter))
+
+
+# ---------------------------------------------------------------- SortedWriter
+classdef('rbql_engine.SortedWriter', bases=['rbql_engine.RBQLOutputWriter'],
+         fields=dict(subwriter=Obj['rbql_engine.RBQLOutputWriter'], reverse_sort=Bool, unsorted_entries=List[Tuple[Key, Rec]]))
+
+
+@contract('rbql_engine.RBQLOutputWriter.write2', name='IF.writer.write2', trusted='interface contract of the sorting writer protocol write(sort_key, record) (A-WRITER)')
+def _(self: Obj['rbql_engine.RBQLOutputWriter'], sort_key_value: Key, fields: List[Cell]) -> Bool:
+    requires(not self.finished, 'not_finished')
+    requires(not self.refused, 'no_write_after_refusal')
+    requires(self.sorted_iface, 'sorting_writer')
+    requires(not is_src(fields), 'record_is_not_a_source_row')
+    requires(not is_offered(fields), 'engine_record_not_offered_twice')
+    ghost_update(is_held(fields), True)
+    ensures(self.offered == old(self.offered) + [old(contents(fields))], 'offered')
+    ensures(self.refused == (not result), 'refused')
+    ensures(self.finished == old(self.finished), 'typestate')
+    ensures(contents(fields) == old(contents(fields)), 'record_untouched')
+    modifies(region(self))
+
+
+@pred
+def sorted_inv(self):
+    sub = self.subwriter
+    E = contents(self.unsorted_entries)
+    return (sub.level < self.level and not sub.sorted_iface and self.sorted_iface
+            and len(sub.offered) == 0 and not sub.refused and not sub.finished and not self.refused and not self.finished
+            and len(E) == len(self.offered)
+            and not is_offered(self.unsorted_entries) and not is_src(self.unsorted_entries)
+            and forall(Int, lambda i: implies(0 <= i and i < len(E),
+                                              is_held(E[i][1]) and not is_owned_below(E[i][1]) and contents(E[i][1]) == self.offered[i]))
+            and forall(Int, Int, lambda i, j: implies(0 <= i and i < j and j < len(E), not same(E[i][1], E[j][1]))))
+
+
+@contract('rbql_engine.SortedWriter.__init__', name='C02.sorted.init', props=['C02', 'C15'])
+def _(self: Obj['rbql_engine.SortedWriter'], subwriter: Obj['rbql_engine.RBQLOutputWriter'], reverse_sort: Bool):
+    requires(not same(self, subwriter), 'distinct')
+    requires(len(subwriter.offered) == 0 and not subwriter.refused and not subwriter.finished and not subwriter.sorted_iface, 'sub_new')
+    ghost_update(self.level, subwriter.level + 1)
+    ghost_update(self.offered, empty(RecV))
+    ghost_update(self.refused, False)
+    ghost_update(self.finished, False)
+    ghost_update(self.sorted_iface, True)
+    ensures(sorted_inv(self), 'inv')
+    ensures(self.reverse_sort == reverse_sort and same(self.subwriter, subwriter), 'fields')
+    modifies(self)
+
+
+@contract('rbql_engine.SortedWriter.write', name='C02.sorted.write', props=['C02', 'C15', 'C06'], store_policy='writer')
+def _(self: Obj['rbql_engine.SortedWriter'], sort_key_value: Key, record: List[Cell]) -> Bool:
+    requires(sorted_inv(self), 'inv')
+    requires(not is_src(record), 'record_is_not_a_source_row')
+    requires(not is_offered(record), 'engine_record_not_offered_twice')
+    ghost_update(self.offered, old(self.offered) + [old(contents(record))])
+    ghost_update(is_held(record), True)
+    ensures(sorted_inv(self), 'inv')
+    ensures(result, 'never_refuses')
+    ensures(contents(self.unsorted_entries) == old(contents(self.unsorted_entries)) + [tup(sort_key_value, record)], 'buffered_in_order')
+    ensures(contents(record) == old(contents(record)), 'record_untouched')
+    ensures(same(self.subwriter, old(self.subwriter)) and self.reverse_sort == old(self.reverse_sort), 'config_unchanged')
+    modifies(self, self.unsorted_entries)
+
+
+@contract('rbql_engine.SortedWriter.finish', name='C02.sorted.finish', props=['C02', 'C15', 'C06'], store_policy='writer')
+def _(self: Obj['rbql_engine.SortedWriter']):
+    requires(sorted_inv(self), 'inv')
+    ghost_update(self.finished, True)
+    local_types(sorted_entries=List[Tuple[Key, Rec]])
+    loop_types(0, e=Tuple[Key, Rec])
+    invariant(0, 0 <= __i and __i <= len(sorted_entries), 'idx')
+    invariant(0, same(self.subwriter, old(self.subwriter)) and same(self.unsorted_entries, old(self.unsorted_entries))
+              and self.offered == old(self.offered) and self.reverse_sort == old(self.reverse_sort)
+              and contents(self.unsorted_entries) == old(contents(self.unsorted_entries))
+              and not is_offered(self.unsorted_entries)
+              and self.subwriter.level < self.level and not self.subwriter.sorted_iface, 'config')
+    invariant(0, is_fresh(sorted_entries) and not is_offered(sorted_entries) and len(sorted_entries) == len(self.offered)
+              and contents(sorted_entries) == at_loop_entry(contents(sorted_entries)), 'sorted_list_stable')
+    invariant(0, self.subwriter.offered == pick_dir(self.offered, sort_perm(contents(self.unsorted_entries), len(self.offered)), self.reverse_sort, __i), 'forwarded_in_sorted_order')
+    invariant(0, len(self.subwriter.offered) == __i, 'count')
+    invariant(0, not self.subwriter.refused and not self.subwriter.finished, 'sub_open')
+    invariant(0, forall(Int, lambda k: implies(__i <= k and k < len(sorted_entries),
+                                               is_held(contents(sorted_entries)[k][1]) and not is_owned_below(contents(sorted_entries)[k][1])
+                                               and contents(contents(sorted_entries)[k][1]) == old_contents(contents(sorted_entries)[k][1]))), 'pending_records_untouched')
+    ensures(self.subwriter.finished, 'sub_finished_once')
+    # ORDER BY: the forwarded sequence is the offered records in stable key order; DESC is exactly its reverse
+    ensures(self.subwriter.offered == pick_dir(self.offered, sort_perm(contents(self.unsorted_entries), len(self.offered)), self.reverse_sort, len(self.subwriter.offered)), 'forwarded_in_sorted_order')
+    ensures(len(self.subwriter.offered) <= len(self.offered) and (len(self.subwriter.offered) == len(self.offered) or self.subwriter.refused), 'complete_unless_refused')
+    ensures(self.offered == old(self.offered), 'offered_unchanged')
     modifies(self, region(self.subwriter))
